@@ -46,6 +46,10 @@ def compare_result(mo, io):
         return None
     if mo[0] != io[0]:
         return "observation kind differs"
+    for x in io[2:]:
+        if isinstance(x, list) and x and x[0] == "aliased-with-receiver":
+            return (f"the returned event shares {x[1]} mutable object(s) (events / durations) with the receiver: the model's result is "
+                    "a new value; an in-place edit of either would change the other")
     m1, i1 = mo[1], io[1]
     if isinstance(m1, list) and m1 and m1[0] == "parts":
         if len(m1) != len(i1):
@@ -58,6 +62,19 @@ def compare_result(mo, io):
     if isinstance(m1, list):
         return same_or_flat_equal(m1, i1)
     return None if m1 == i1 else "value differs"
+
+
+def alias_failure(io):
+    """oracle clause shared by the pure operations: the returned events are new objects"""
+    if not isinstance(io, list):
+        return None
+    for x in io[2:]:
+        if isinstance(x, list) and x and x[0] == "aliased-with-receiver":
+            if x[2] == "result-changes-when-receiver-is-edited":
+                return (f"the returned event shares {x[1]} object(s) with the receiver: after doubling the receiver's leaves in place "
+                        f"the value returned earlier reads {sx.show(x[3])[:300]}")
+            return f"the returned event shares {x[1]} mutable object(s) with the receiver"
+    return None
 
 
 def same_at(f, g_, points):
